@@ -366,3 +366,156 @@ Proof.
   - simpl in E. inversion E; subst. eapply resolve_rules_keeps; eauto. apply add_self.
   - eapply IH; eauto.
 Qed.
+
+(* ------------------------------------------------------------------ resolveImports = flatten *)
+(* induction over import trees (rrule is a nested inductive type) *)
+Section RruleInd.
+  Variable P : rrule -> Prop.
+  Hypothesis Hcharset : forall e, P (RCharset e).
+  Hypothesis Hns : forall u, P (RNamespace u).
+  Hypothesis Hstyle : forall a b, P (RStyle a b).
+  Hypothesis Hcomment : forall t, P (RComment t).
+  Hypothesis Himport : forall h media found href rules, Forall P rules -> P (RImport h media found href rules).
+
+  Fixpoint rrule_tree_ind (r : rrule) : P r :=
+    match r with
+    | RCharset e => Hcharset e
+    | RNamespace u => Hns u
+    | RStyle a b => Hstyle a b
+    | RComment t => Hcomment t
+    | RImport h media found href rules =>
+        Himport h media found href rules
+          ((fix go (l : list rrule) : Forall P l :=
+              match l with
+              | [] => Forall_nil P
+              | x :: xs => Forall_cons x (rrule_tree_ind x) (go xs)
+              end) rules)
+    end.
+End RruleInd.
+
+(* the part of resolve_rule for an @import that does not recurse *)
+Definition import_case (h media : str) (found : bool) (inner : option (list frule)) (tg : list frule)
+  : option (list frule) :=
+  if negb found then Some (add (FImport h media) tg)
+  else
+    let tg1 := add (start_comment h) tg in
+    match inner with
+    | None => Some (add (FImport h media) tg1)
+    | Some imported =>
+        if is_all media then Some (fold_left (fun t x => add x t) imported tg1)
+        else if forallb wrappable imported then
+          if existsb (is_kind K_IMPORT) imported then None
+          else Some (add (FMedia media imported) tg1)
+        else Some (add (FImport h media) tg1)
+    end.
+
+Lemma resolve_rule_import h media found href rules tg :
+  resolve_rule (RImport h media found href rules) tg = import_case h media found (resolve_rules rules []) tg.
+Proof.
+  unfold import_case, start_comment. simpl. destruct (negb found); [reflexivity|].
+  match goal with
+  | |- context [match ?f rules [] with Some _ => _ | None => _ end] =>
+      replace (f rules []) with (resolve_rules rules [])
+  end; [reflexivity|].
+  generalize (@nil frule). induction rules as [ | x xs IH]; intros acc; simpl; [reflexivity|].
+  destruct (resolve_rule x acc); auto.
+Qed.
+
+Lemma place_app a b tg : place (a ++ b) tg = place b (place a tg).
+Proof. unfold place. apply fold_left_app. Qed.
+
+Lemma resolve_rules_spec l :
+  Forall (fun r => forall tg, resolve_rule r tg = Some (place (contrib r) tg)) l ->
+  forall acc, resolve_rules l acc = Some (place (flat_map contrib l) acc).
+Proof.
+  induction 1 as [ | x xs Hx Hxs IH]; intros acc; simpl; [reflexivity|].
+  rewrite Hx, place_app. apply IH.
+Qed.
+
+Lemma resolve_rule_spec r : forall tg, resolve_rule r tg = Some (place (contrib r) tg).
+Proof.
+  induction r as [e | u | a b | t | h media found href rules IH] using rrule_tree_ind; intros tg;
+    try reflexivity.
+  rewrite resolve_rule_import, (resolve_rules_spec _ IH). unfold import_case.
+  change (contrib (RImport h media found href rules)) with
+    (if negb found then [FImport h media]
+     else start_comment h ::
+          (if is_all media then place (flat_map contrib rules) []
+           else if forallb wrappable (place (flat_map contrib rules) []) then [FMedia media (place (flat_map contrib rules) [])]
+           else [FImport h media])).
+  destruct (negb found); [reflexivity|].
+  destruct (is_all media); [reflexivity|].
+  destruct (forallb wrappable (place (flat_map contrib rules) [])) eqn:Ew; [ | reflexivity].
+  rewrite (wrappable_not_import _ Ew). reflexivity.
+Qed.
+
+Lemma resolve_imports_spec_lemma rules : resolve rules = Some (flatten rules).
+Proof.
+  unfold resolve, flatten. apply resolve_rules_spec.
+  apply Forall_forall. intros r _. apply resolve_rule_spec.
+Qed.
+
+(* ---- nothing that was not loaded gets lost, at any depth: every unloaded @import of the tree is in the flattened
+   sheet itself, or a media-restricted @import above it is kept as a whole *)
+(* covers rules h media: (h, media) is the @import rule that must stand in the flattened sheet for some unloaded
+   import of the tree -- the unloaded import itself, possibly seen through loaded `all` imports, or the media-restricted
+   loaded import above it (which then cannot be wrapped) *)
+Inductive covers : list rrule -> str -> str -> Prop :=
+  | cov_here rules h media href sub : In (RImport h media false href sub) rules -> covers rules h media
+  | cov_all rules h0 m0 href sub h media :
+      In (RImport h0 m0 true href sub) rules -> is_all m0 = true -> covers sub h media -> covers rules h media
+  | cov_media rules h0 m0 href sub h media :
+      In (RImport h0 m0 true href sub) rules -> is_all m0 = false -> covers sub h media -> covers rules h0 m0.
+
+(* some @import anywhere in the tree was not loaded *)
+Inductive has_unloaded : list rrule -> Prop :=
+  | un_here rules h media href sub : In (RImport h media false href sub) rules -> has_unloaded rules
+  | un_below rules h media href sub : In (RImport h media true href sub) rules -> has_unloaded sub -> has_unloaded rules.
+
+Lemma has_unloaded_covered rules : has_unloaded rules -> exists h media, covers rules h media.
+Proof.
+  induction 1 as [rules h media href sub Hin | rules h media href sub Hin Hu [h' [m' IH]]].
+  - eauto using cov_here.
+  - destruct (is_all media) eqn:E; eauto using cov_all, cov_media.
+Qed.
+
+Lemma place_keeps l tg y : In y tg -> In y (place l tg).
+Proof. unfold place. apply fold_add_keeps. Qed.
+
+Lemma place_in l : forall tg y, In y l -> In y (place l tg).
+Proof.
+  induction l as [ | x xs IH]; intros tg y H; [destruct H|].
+  unfold place. simpl. destruct H as [-> | H].
+  - apply fold_add_keeps. apply add_self.
+  - apply IH. exact H.
+Qed.
+
+Lemma flatten_in rules r y : In r rules -> In y (contrib r) -> In y (flatten rules).
+Proof.
+  intros Hr Hy. unfold flatten. apply place_in. apply in_flat_map. eauto.
+Qed.
+
+Lemma wrappable_in_not_import l h media : forallb wrappable l = true -> In (FImport h media) l -> False.
+Proof.
+  intros Hw Hin. rewrite forallb_forall in Hw. specialize (Hw _ Hin). vm_compute in Hw. discriminate.
+Qed.
+
+Lemma flatten_covers rules h media : covers rules h media -> In (FImport h media) (flatten rules).
+Proof.
+  induction 1 as [rules h media href sub Hin
+                 | rules h0 m0 href sub h media Hin Hm Hc IH
+                 | rules h0 m0 href sub h media Hin Hm Hc IH].
+  - eapply flatten_in; [exact Hin|]. simpl. left. reflexivity.
+  - eapply flatten_in; [exact Hin|].
+    change (In (FImport h media) (start_comment h0 ::
+              (if is_all m0 then flatten sub else if forallb wrappable (flatten sub) then [FMedia m0 (flatten sub)]
+               else [FImport h0 m0]))).
+    rewrite Hm. right. exact IH.
+  - eapply flatten_in; [exact Hin|].
+    change (In (FImport h0 m0) (start_comment h0 ::
+              (if is_all m0 then flatten sub else if forallb wrappable (flatten sub) then [FMedia m0 (flatten sub)]
+               else [FImport h0 m0]))).
+    rewrite Hm. destruct (forallb wrappable (flatten sub)) eqn:Hw.
+    + exfalso. eapply wrappable_in_not_import; eauto.
+    + right. left. reflexivity.
+Qed.
